@@ -29,25 +29,25 @@ Proof. exact router_next_hop_spec. Qed.
 (* forwarding ends: if every forwarding hop lowers the TTL, the nested propagation of a frame over any wiring and any
    device models needs at most TTL+1 nesting levels (more fuel changes nothing) *)
 Theorem c08_propagation_terminates :
-  forall (node port frame dstate : Type) (wire : node -> port -> option (node * port))
-         (handle : (node -> dstate) -> node -> port -> frame -> (node -> dstate) * list (port * frame) * bool)
+  forall (node port frame gstate : Type) (wire : node -> port -> option (node * port))
+         (handle : gstate -> node -> port -> frame -> gstate * list (port * frame) * bool)
          (ttl : frame -> nat),
   (forall s n p f s' outs d, handle s n p f = (s', outs, d) -> forall q f', In (q, f') outs -> (ttl f' < ttl f)%nat) ->
   forall k fuel1 fuel2 s n p f, (ttl f < k)%nat -> (k <= fuel1)%nat -> (k <= fuel2)%nat ->
-  prop node port frame dstate wire handle fuel1 s n p f = prop node port frame dstate wire handle fuel2 s n p f.
+  prop node port frame gstate wire handle fuel1 s n p f = prop node port frame gstate wire handle fuel2 s n p f.
 Proof. exact propagation_terminates. Qed.
 
 (* a payload is delivered only along a path every device of which forwards it (used with the device models of C06) *)
 Theorem c08_delivery_implies_open_path :
-  forall (node port frame dstate K B : Type) (wire : node -> port -> option (node * port))
-         (handle : (node -> dstate) -> node -> port -> frame -> (node -> dstate) * list (port * frame) * bool)
-         (key : frame -> K) (bstate : (node -> dstate) -> B)
+  forall (node port frame gstate K B : Type) (wire : node -> port -> option (node * port))
+         (handle : gstate -> node -> port -> frame -> gstate * list (port * frame) * bool)
+         (key : frame -> K) (bstate : gstate -> B)
          (open_hop : B -> node -> port -> port -> K -> Prop) (accepts : B -> node -> port -> K -> Prop),
   (forall s n p f s' outs d, handle s n p f = (s', outs, d) ->
       bstate s' = bstate s /\
       (forall q f', In (q, f') outs -> key f' = key f /\ open_hop (bstate s) n p q (key f)) /\
       (d = true -> accepts (bstate s) n p (key f))) ->
-  forall fuel s n p f s' del, prop node port frame dstate wire handle fuel s n p f = (s', del) ->
+  forall fuel s n p f s' del, prop node port frame gstate wire handle fuel s n p f = (s', del) ->
   bstate s' = bstate s /\
   forall n' p', In (n', p') del -> open_path node port K B wire open_hop accepts (bstate s) (key f) n p n' p'.
 Proof. exact delivered_implies_open_path. Qed.
